@@ -32,9 +32,9 @@ def SideOK (P : PyChars) : Block → Prop
   | .live (.entry e) =>
     (∀ c ∈ e.ty, P.isWord c = true) ∧ lower P e.ty = e.ty ∧
     startsWith "comment".toList e.ty = false ∧ startsWith "preamble".toList e.ty = false ∧
-    startsWith "string".toList e.ty = false ∧ SimpleText e.key ∧
-    ∀ f ∈ e.fields, SimpleText f.key ∧ ∀ v, f.value = .str v → ValueOK P v
-  | .live (.string k v _ _ _) => SimpleText k ∧ ∀ s, v = .str s → StrValOK P s
+    startsWith "string".toList e.ty = false ∧ KeyOK P e.key ∧
+    ∀ f ∈ e.fields, KeyOK P f.key ∧ ∀ v, f.value = .str v → ValueOK P v
+  | .live (.string k v _ _ _) => KeyOK P k ∧ ∀ s, v = .str s → StrValOK P s
   | .live (.preamble v _ _ _) => TextOK P v
   | .live (.expl c _ _ _) => TextOK P c
   | .live (.impl c _ _ _) => noStart P c = true
@@ -354,9 +354,9 @@ def SideOKC (P : PyChars) : Content → Prop
   | .entry ty k fs =>
     (∀ c ∈ ty, P.isWord c = true) ∧ lower P ty = ty ∧
     startsWith "comment".toList ty = false ∧ startsWith "preamble".toList ty = false ∧
-    startsWith "string".toList ty = false ∧ SimpleText k ∧
-    ∀ kv ∈ fs, SimpleText kv.1 ∧ ∀ v, kv.2 = .str v → ValueOK P v
-  | .string k v => SimpleText k ∧ ∀ s, v = .str s → StrValOK P s
+    startsWith "string".toList ty = false ∧ KeyOK P k ∧
+    ∀ kv ∈ fs, KeyOK P kv.1 ∧ ∀ v, kv.2 = .str v → ValueOK P v
+  | .string k v => KeyOK P k ∧ ∀ s, v = .str s → StrValOK P s
   | .preamble v => TextOK P v
   | .expl c => TextOK P c
   | .impl c => noStart P c = true
